@@ -1,7 +1,15 @@
 """C20 - conversion options survive embedding in generated code and key the caches.
 
 Finite space: 2^3 flags x 2^7 Feature subsets = 1024 values, enumerated completely (Pool of
-worker processes, rows of the 1024x1024 pair table sharded by index). No random generation.
+worker processes, the values dealt round-robin to the shards). No random generation.
+
+End-to-end embedding (check_embed) is the product entity kinds x entry points x values:
+  kinds   def (with nested def and lambda), lambda, lambda holding a nested lambda, lambda with a default,
+          nested def (closure, with docstring), bound method, class method, static method,
+          functools.partial of a def / of a partial / of a lambda, callable object
+  entries PyToPy.transform (static for all 1024 values), to_code (static), to_graph, the convert decorator,
+          converted_call(options=), converted_call(caller_fn_scope=), malt.internal.convert under every ambient
+          status x context status x convert_by_default x user_requested (also left to their defaults)
 """
 import itertools
 
@@ -15,20 +23,32 @@ ID = 'C20'
 LEVEL = 'exploration'
 EXHAUSTIVE = True
 TECHNIQUE = ('exhaustive enumeration of the finite option space (1024 values, 1024^2 ordered pairs, '
-             'all spellings) against round-trip / algebraic-law oracles; end-to-end embedding on the '
-             '128 values a FunctionScope accepts')
+             'all spellings) against round-trip / algebraic-law oracles; end-to-end embedding over the product '
+             'entity kinds (12) x entry points (7) for every value the entry point can request: the options '
+             'expressions in the generated source are evaluated (all 1024 values) and the options objects handed '
+             'to the live function scopes are read (the 128 values a FunctionScope accepts)')
 RULE = ('every one of the 2^3 x 2^7 = 1024 ConversionOptions values is constructed (also through the '
         'alternative spellings None / bare Feature / tuple / reversed tuple / list / set / frozenset), '
         'round-tripped through to_ast -> unparse -> eval, compared against all 1024 values for eq/ne/hash, '
         'and checked for call_options and uses; as cache keys: an entity allowlisted under one value is looked up under all 1024 '
         '(conversion.cache_allowlisted / is_in_allowlist_cache) and the transpiler caching keys (api.PyToPy.get_caching_key) of all '
         'ordered pairs are compared - a hit / equal key exactly when the two values are equal; a value is non-trivial always (the space is finite) and '
-        'distinct by its (flags, feature set); evaluations counts single-value checks + ordered pairs + '
-        'embedded conversions')
+        'distinct by its (flags, feature set); end-to-end: an embedding case is one (value, entity kind, entry point) conversion whose '
+        'embedded options are evaluated from the generated source (embed_static) or read from the running scopes (embed_run); '
+        'classes embed_static:<entry>/<kind> and embed_run:<entry>/<kind> count them; evaluations counts single-value checks + '
+        'ordered pairs + embedding cases')
 ASSUMPTIONS = [
     'the Feature enumeration has exactly the 7 members read from malt.core.converter at run time',
     'eval of the unparsed AST uses the ag__ module built by api.PyToPy.get_extra_locals (what generated code sees)',
-    'end-to-end embedding is exercised only for option values FunctionScope accepts (no ALL / NAME_SCOPES / AUTO_CONTROL_DEPS)',
+    'running generated code is exercised only for option values FunctionScope accepts (no ALL / NAME_SCOPES / AUTO_CONTROL_DEPS); '
+    'for the other 896 values the embedded expressions are evaluated from the generated source without running it '
+    '(quick tier: one entity kind per value in rotation, 112 values per kind; thorough tier: every kind)',
+    'entry points are given only what they document: to_graph / to_code / PyToPy.transform get entities with a __code__ object '
+    '(partials and callable objects go through convert / converted_call / malt.internal.convert, which unwrap them)',
+    'whether a route converts at all is taken from the documented contract: converted_call converts user code only when '
+    'internal_convert_user_code is set (hence callees exactly under recursion); malt.internal.convert converts under an ENABLED '
+    'context or an UNSPECIFIED one with convert_by_default - where it does not convert only the result is checked',
+    'the spy FunctionScope / with_function_scope record their arguments and defer to the real implementations',
 ]
 
 FEATURES = list(converter.Feature)
@@ -191,77 +211,433 @@ def check_cache_keys(va, a, vals, objs, keys, ka, fails):
 
 
 # ---- end-to-end embedding -----------------------------------------------------------------------
+#
+# Entity kinds x entry points. Every entity calls the module-level def `callee` (so the options handed
+# to a dynamically converted callee are observed as well) and has a result that identifies it.
 
 _E2E_SRC = '''
+import functools
+
+
+def callee(y):
+  return y + 1
+
+
 def tiny(x):
   def inner(y):
     return y + 1
   lam = lambda z: z + 2
-  return inner(x) + lam(x)
+  return inner(x) + lam(x) + callee(x)
+
+
+lam_entity = lambda x: callee(x) + 8
+
+lam_nest = lambda x: (lambda z: callee(z) + 3)(x) + 1
+
+lam_default = lambda x, k=20: callee(x) + k
+
+
+def make_nested(k):
+  def nested(x):
+    """Docstring of a closure: the function scope is opened after it."""
+    return callee(x) + k
+  return nested
+
+
+nested_entity = make_nested(10)
+
+
+class Box(object):
+
+  def __init__(self, k):
+    self.k = k
+
+  def method(self, x):
+    return callee(x) + self.k * 2
+
+  @classmethod
+  def cmethod(cls, x):
+    return callee(x) + 40
+
+  @staticmethod
+  def smethod(x):
+    return callee(x) + 50
+
+  def __call__(self, x):
+    return callee(x) + self.k * 3
+
+
+box = Box(10)
+
+
+def base(a, x, b=0):
+  return callee(x) + a + b
+
+
+partial_entity = functools.partial(base, 100, b=1000)
+partial_nested = functools.partial(functools.partial(base, 200), b=2000)
+partial_lambda = functools.partial(lambda a, x: callee(x) + a + 60, 3000)
 '''
 
 _UNSUPPORTED = {converter.Feature.ALL, converter.Feature.NAME_SCOPES, converter.Feature.AUTO_CONTROL_DEPS}
+_ARG = 5
+
+
+class Kind(object):
+  """One kind of convertible entity.
+
+  get(mod) -> the entity; own: name its function scope reports; inner: names of the scopes of the defs
+  nested in it (converted with it, they receive call options); want: result for argument 5;
+  code: the entity exposes __code__ (to_graph / to_code / PyToPy.transform accept it);
+  bind(mod) -> leading arguments the converted form needs when it is an unbound function.
+  """
+
+  def __init__(self, label, get, own, want, inner=(), code=True, bind=None):
+    self.label, self.get, self.own, self.want = label, get, own, want
+    self.inner, self.code, self.bind = tuple(inner), code, bind
+    # failure buckets name the family, the detail names the kind
+    self.family = ('lambda' if label.startswith('lambda') else 'partial' if label.startswith('partial') else
+                   'callable_object' if label == 'callable_object' else 'function')
+
+  def lead(self, mod):
+    return tuple(self.bind(mod)) if self.bind else ()
+
+
+KINDS = [
+    Kind('def', lambda m: m.tiny, 'tiny', 19, inner=('inner',)),
+    Kind('lambda', lambda m: m.lam_entity, '<lambda>', 14),
+    Kind('lambda_with_nested_lambda', lambda m: m.lam_nest, '<lambda>', 10),
+    Kind('lambda_with_default', lambda m: m.lam_default, '<lambda>', 26),
+    Kind('nested_def', lambda m: m.nested_entity, 'nested', 16),
+    Kind('bound_method', lambda m: m.box.method, 'method', 26, bind=lambda m: (m.box,)),
+    Kind('class_method', lambda m: m.Box.cmethod, 'cmethod', 46, bind=lambda m: (m.Box,)),
+    Kind('static_method', lambda m: m.Box.smethod, 'smethod', 56),
+    Kind('partial_of_def', lambda m: m.partial_entity, 'base', 1106, code=False),
+    Kind('partial_of_partial', lambda m: m.partial_nested, 'base', 2206, code=False),
+    Kind('partial_of_lambda', lambda m: m.partial_lambda, '<lambda>', 3066, code=False),
+    Kind('callable_object', lambda m: m.box, '__call__', 36, code=False),
+]
+
+# Shapes deliberately not generated (outside the documented domain of the entry point); counted.
+EXCLUSIONS = {
+    'excl_no_code_object_to_graph': 'to_graph / to_code / PyToPy.transform on a functools.partial or a callable object: '
+                                    'documented ValueError ("doesn\'t expose a __code__ object"), nothing is generated',
+}
+
+_STATUSES = ('UNSPECIFIED', 'ENABLED', 'DISABLED')
 
 
 def embeddable(v):
   return not (set(v[3]) & _UNSUPPORTED)
 
 
+def call_tup(t):
+  """The value call_options() must produce for a value with fields t."""
+  return (t[0], False, t[0], frozenset(t[3]))
+
+
+def _fields(op):
+  if not isinstance(op, converter.ConversionOptions):
+    return ('not-an-options-object', repr(op))
+  return (op.recursive, op.user_requested, op.internal_convert_user_code, frozenset(op.optional_features))
+
+
+def _show(t):
+  if len(t) == 4 and isinstance(t[3], frozenset):
+    return repr(t[:3] + (sorted(f.name for f in t[3]),))
+  return repr(t)
+
+
 class _Recorder(object):
+  """What the running generated code handed to its function scopes."""
+
   def __init__(self):
-    self.seen = []
-    self.scopes = []
+    self.reset()
+
+  def reset(self):
+    self.seen = []     # (function name, options object passed by the generated code)
+    self.scopes = []   # (function name, the live FunctionScope)
 
 
-def check_embed(v, mod, fails):
-  """Converts tiny() under v; the options objects the running code hands to its function scopes
-  must equal v (top level) / v.call_options() (nested def and lambda)."""
-  from malt.operators import function_wrappers
-  rec = _Recorder()
-  real_fs = function_wrappers.FunctionScope
+class _Spies(object):
+  """FunctionScope / with_function_scope replacements that record and then defer to the real ones."""
 
-  class SpyScope(real_fs):
-    def __init__(self, function_name, scope_name, options):
-      rec.seen.append((function_name, options))
-      real_fs.__init__(self, function_name, scope_name, options)
-      rec.scopes.append((function_name, self))
+  def __init__(self):
+    from malt.operators import function_wrappers
+    rec = self.rec = _Recorder()
+    real_fs = function_wrappers.FunctionScope
+    real_wfs = function_wrappers.with_function_scope
 
-  def spy_with_function_scope(thunk, scope_name, options):
-    rec.seen.append(('<lambda>', options))
-    with SpyScope('lambda_', scope_name, options) as scope:
-      return thunk(scope)
+    class SpyScope(real_fs):
+      def __init__(self, function_name, scope_name, options):
+        rec.seen.append((function_name, options))
+        real_fs.__init__(self, function_name, scope_name, options)
+        rec.scopes.append((function_name, self))
 
-  tr = harness.PrivateTranspiler({'FunctionScope': SpyScope, 'with_function_scope': spy_with_function_scope},
-                                 capture=True)
-  o = mk(v)
-  try:
-    f = harness.convert_private(tr, mod.tiny, o)
-    r = f(5)
-  except Exception as e:
-    fails.append(('embed:exc:' + harness.exc_bucket(e), repr(e)))
-    return
-  if r != 13:
-    fails.append(('embed:result', r))
-  want_top, want_inner = tup(v), (v[0], False, v[0], frozenset(v[3]))
-  tops = [op for n, op in rec.seen if n == 'tiny']
-  inners = [op for n, op in rec.seen if n == 'inner']  # nested lambdas get no scope (by design)
-  if len(tops) != 1 or len(inners) != 1:
-    fails.append(('embed:scopes', [n for n, _ in rec.seen]))
-    return
-  for op in tops:
-    if not isinstance(op, converter.ConversionOptions) or (
-        op.recursive, op.user_requested, op.internal_convert_user_code, frozenset(op.optional_features)) != want_top:
-      fails.append(('embed:top', {'got': repr(getattr(op, 'as_tuple', lambda: op)()), 'want': repr(want_top)}))
-  # the options each running scope hands to its callees (what converted_call receives)
-  for name, sc in rec.scopes:
-    co = getattr(sc, 'callopts', None)
-    if not isinstance(co, converter.ConversionOptions) or (
-        co.recursive, co.user_requested, co.internal_convert_user_code, frozenset(co.optional_features)) != want_inner:
-      fails.append(('embed:callopts', {'scope': name, 'got': repr(getattr(co, 'as_tuple', lambda: co)()), 'want': repr(want_inner)}))
-  for op in inners:
-    if not isinstance(op, converter.ConversionOptions) or (
-        op.recursive, op.user_requested, op.internal_convert_user_code, frozenset(op.optional_features)) != want_inner:
-      fails.append(('embed:inner', {'got': repr(getattr(op, 'as_tuple', lambda: op)()), 'want': repr(want_inner)}))
+    def spy_with_function_scope(thunk, scope_name, options):
+      rec.seen.append(('<lambda>', options))
+
+      def spied_thunk(scope):
+        rec.scopes.append(('<lambda>', scope))
+        return thunk(scope)
+      return real_wfs(spied_thunk, scope_name, options)
+
+    self.overrides = {'FunctionScope': SpyScope, 'with_function_scope': spy_with_function_scope}
+    self.transpiler = harness.PrivateTranspiler(self.overrides, capture=False)
+
+
+def _static_scopes(src):
+  """(scope function name, source of the embedded options expression) for every function scope opened in
+  generated source `src`."""
+  import ast
+  import textwrap
+  out = []
+  for n in ast.walk(ast.parse(textwrap.dedent(src))):
+    if isinstance(n, ast.Call) and isinstance(n.func, ast.Attribute) and len(n.args) == 3:
+      if n.func.attr == 'FunctionScope':
+        out.append((n.args[0].value if isinstance(n.args[0], ast.Constant) else '?', ast.unparse(n.args[2])))
+      elif n.func.attr == 'with_function_scope':
+        out.append(('<lambda>', ast.unparse(n.args[2])))
+  return out
+
+
+class _Embed(object):
+  """One value's end-to-end embedding checks; collects fails and class counters."""
+
+  def __init__(self, v, mod, spies, fails, classes, rank=0, full=True):
+    self.v, self.mod, self.spies, self.fails, self.classes, self.rank = v, mod, spies, fails, classes, rank
+    self.full = full
+    self.n = 0
+
+  def cls(self, c):
+    self.classes.append(c)
+
+  def fail(self, what, entry, kind, detail):
+    d = {'entry': entry, 'kind': kind.label}
+    d.update(detail)
+    self.fails.append(('embed:%s:%s/%s' % (what, entry.split('[')[0], kind.family), d))
+
+  # -- oracles ------------------------------------------------------------------------------------
+
+  def judge_static(self, entry, kind, src, top):
+    """The options expressions in generated source evaluate back to the requested value (the entity's own
+    scope) / its call options (scopes of nested defs)."""
+    self.n += 1
+    self.cls('embed_static')
+    self.cls('embed_static:%s/%s' % (entry, kind.label))
+    ag = harness.real_ag()
+    try:
+      scopes = _static_scopes(src)
+    except Exception as e:
+      self.fail('static:unparsable', entry, kind, {'exc': repr(e)})
+      return
+    names = sorted(n for n, _ in scopes)
+    if names != sorted((kind.own,) + kind.inner):
+      self.fail('static:scopes', entry, kind, {'got': names, 'want': sorted((kind.own,) + kind.inner)})
+      return
+    for name, expr in scopes:
+      want = top if name == kind.own else call_tup(top)
+      try:
+        back = eval(expr, {'ag__': ag})
+      except Exception as e:
+        self.fail('static:eval-exc:' + type(e).__name__, entry, kind, {'expr': expr, 'exc': repr(e)})
+        continue
+      wo = converter.ConversionOptions(recursive=want[0], user_requested=want[1], internal_convert_user_code=want[2],
+                                       optional_features=want[3])
+      if _fields(back) != want or not (back == wo) or hash(back) != hash(wo):
+        self.fail('static:entity-options' if name == kind.own else 'static:inner-options', entry, kind,
+                  {'scope': name, 'expr': expr, 'got': _show(_fields(back)), 'want': _show(want)})
+
+  def judge_run(self, entry, kind, result, top, converted):
+    """converted: True = the entity must have been converted under `top`; False = must have run unconverted
+    (user code not allowed); None = the route does not convert (status context), only the result is checked."""
+    rec = self.spies.rec
+    self.n += 1
+    self.cls('embed_run')
+    self.cls('embed_run:%s/%s' % (entry.split('[')[0], kind.label))
+    if result != kind.want:
+      self.fail('result', entry, kind, {'got': repr(result), 'want': kind.want})
+    names = [n for n, _ in rec.seen]
+    if converted is None:
+      self.cls('embed_run:route_does_not_convert')
+      return
+    if not converted:
+      self.cls('embed_run:user_code_not_allowed')
+      if names:
+        self.fail('converted-although-user-code-not-allowed', entry, kind, {'scopes': names, 'requested': _show(top)})
+      return
+    self.cls('embed_run:converted')
+    inner = call_tup(top)
+    want_names = (kind.own,) + kind.inner + (('callee',) if top[0] else ())
+    self.cls('embed_run:callee_converted' if top[0] else 'embed_run:callee_left_alone(non-recursive)')
+    if sorted(names) != sorted(want_names) or sorted(n for n, _ in rec.scopes) != sorted(want_names):
+      if 'callee' in names and not top[0]:
+        what = 'callee-converted-without-recursion'
+      elif 'callee' not in names and top[0]:
+        what = 'callee-not-converted-under-recursion'
+      else:
+        what = 'scopes'
+      self.fail(what, entry, kind, {'got': names, 'want': list(want_names), 'requested': _show(top)})
+      return
+    for name, op in rec.seen:
+      want = top if name == kind.own else inner
+      if _fields(op) != want:
+        what = 'entity-options' if name == kind.own else ('callee-options' if name == 'callee' else 'inner-options')
+        self.fail(what, entry, kind, {'scope': name, 'got': _show(_fields(op)), 'want': _show(want)})
+    for (name, op), (_, sc) in zip(rec.seen, rec.scopes):
+      # what the scope keeps must be what it was given (a wrong argument is reported once, above)
+      if _fields(getattr(sc, 'options', None)) != _fields(op):
+        self.fail('scope-holds-other-options', entry, kind,
+                  {'scope': name, 'got': _show(_fields(getattr(sc, 'options', None))), 'given': _show(_fields(op))})
+      # the options each running scope hands to its callees (what converted_call receives)
+      if _fields(getattr(sc, 'callopts', None)) != inner:
+        self.fail('callopts', entry, kind,
+                  {'scope': name, 'got': _show(_fields(getattr(sc, 'callopts', None))), 'want': _show(inner)})
+
+  # -- entry points -------------------------------------------------------------------------------
+
+  def attempt(self, entry, kind, thunk):
+    self.spies.rec.reset()
+    try:
+      return True, thunk()
+    except Exception as e:
+      self.fail('exc:' + harness.exc_bucket(e), entry, kind, {'exc': repr(e)[:400]})
+      return False, None
+
+  def spelled(self, k):
+    """optional_features argument for the public entry points: the spellings rotate over kinds and entries."""
+    sp = spellings(self.v)
+    sp = sp[k % len(sp)]
+    return sp, _spell(self.v[3], sp)
+
+  def run(self):
+    import inspect
+    v, mod = self.v, self.mod
+    top = tup(v)
+    r, u, i, fs = v
+    o = mk(v)
+    can_run = embeddable(v)
+    code_kinds = [k for k in KINDS if k.code]
+    for ki, kind in enumerate(KINDS):
+      ent = kind.get(mod)
+      lead = kind.lead(mod)
+      # 1. PyToPy.transform (what every public route ends in): all 1024 values, static; run when a scope accepts v.
+      #    Values no scope accepts (896 of them; the choice of the options object does not look at the features)
+      #    take one kind each in rotation (quick tier; the thorough tier and replays take every kind).
+      rotated_out = (kind.code and not can_run and not self.full and
+                     code_kinds.index(kind) != self.rank % len(code_kinds))
+      if rotated_out:
+        self.cls('static_kind_left_to_rotation')
+      elif kind.code:
+        ok, f = self.attempt('transform', kind, lambda: harness.convert_private(self.spies.transpiler, ent, o))
+        if ok:
+          self.judge_static('transform', kind, inspect.getsource(f), top)   # no source = harness error
+          if can_run:
+            ok, res = self.attempt('transform', kind, lambda: f(*(lead + (_ARG,))))
+            if ok:
+              self.judge_run('transform', kind, res, top, True)
+      else:
+        self.cls('excl_no_code_object_to_graph')
+      # 2. to_graph / to_code: requests (recursive, True, True, features)
+      if u and i and kind.code and not rotated_out:
+        sp, of = self.spelled(ki)
+        ok, src = self.attempt('to_code', kind, lambda: _api.to_code(ent, recursive=r, experimental_optional_features=of))
+        if ok:
+          self.judge_static('to_code', kind, src, top)
+        if can_run:
+          ok, f = self.attempt('to_graph', kind, lambda: _api.to_graph(ent, recursive=r, experimental_optional_features=of))
+          if ok:
+            self.judge_static('to_graph', kind, inspect.getsource(f), top)
+            ok, res = self.attempt('to_graph', kind, lambda: f(*(lead + (_ARG,))))
+            if ok:
+              self.cls('spelling:' + sp)
+              self.judge_run('to_graph', kind, res, top, True)
+      if not can_run:
+        continue
+      # 3. the convert decorator: requests (recursive, user_requested, True, features)
+      if i:
+        sp, of = self.spelled(ki + 1)
+        ok, res = self.attempt('convert', kind, lambda: _api.convert(recursive=r, optional_features=of, user_requested=u)(ent)(_ARG))
+        if ok:
+          self.cls('spelling:' + sp)
+          self.judge_run('convert', kind, res, top, True)
+      # 4. converted_call with explicit options: any value; user code is converted only when the value allows it
+      ok, res = self.attempt('converted_call', kind, lambda: _api.converted_call(ent, (_ARG,), None, options=mk(v)))
+      if ok:
+        self.judge_run('converted_call', kind, res, top, bool(i))
+      # 5. converted_call on behalf of a caller whose scope was opened with v: the entity is a callee
+      def as_callee():
+        from malt.operators import function_wrappers
+        with function_wrappers.FunctionScope('caller', 'fscope', mk(v)) as scope:
+          return _api.converted_call(ent, (_ARG,), None, scope)
+      ok, res = self.attempt('converted_call_from_scope', kind, as_callee)
+      if ok:
+        self.judge_run('converted_call_from_scope', kind, res, call_tup(top), bool(r))
+      # 6. malt.internal.convert: requests (True, user_requested, True, no features) - under every ambient status,
+      #    with every context status (the ambient context object itself and fresh ones), both defaults
+      if r and i and not fs:
+        self.internal_convert(kind, ent, top)
+
+  def internal_convert(self, kind, ent, top):
+    from malt.core import ag_ctx
+    import malt
+    u = top[1]
+    for ambient in ('default',) + _STATUSES:
+      for ctx_kind in ('ambient',) + _STATUSES:
+        for cbd in (True, False, None):
+          for spell_u in ((False, None) if not u else (True,)):
+            def go():
+              def inner_go():
+                ctx = ag_ctx.control_status_ctx() if ctx_kind == 'ambient' else ag_ctx.ControlStatusCtx(
+                    status=ag_ctx.Status[ctx_kind])
+                kw = {}
+                if cbd is not None:
+                  kw['convert_by_default'] = cbd
+                if spell_u is not None:
+                  kw['user_requested'] = spell_u
+                return ctx.status.name, malt.internal.convert(ent, ctx, **kw)(_ARG)
+              if ambient == 'default':
+                return inner_go()
+              with ag_ctx.ControlStatusCtx(status=ag_ctx.Status[ambient]):
+                return inner_go()
+            entry = 'internal_convert[ambient=%s,ctx=%s,convert_by_default=%s,user_requested=%s]' % (
+                ambient, ctx_kind, cbd, spell_u)
+            ok, res = self.attempt(entry, kind, go)
+            if not ok:
+              continue
+            status, result = res
+            converts = status == 'ENABLED' or (status == 'UNSPECIFIED' and cbd is not False)
+            self.cls('internal_convert:ctx=%s%s:user_requested=%s:%s' % (
+                status, '' if status != 'UNSPECIFIED' else ('+default' if cbd is not False else '+no_default'),
+                u, 'converts' if converts else 'does_not_convert'))
+            self.judge_run(entry, kind, result, top, True if converts else None)
+
+
+def _spell(fs, sp):
+  fs = tuple(fs)
+  return {'tuple': fs, 'rev': tuple(reversed(fs)), 'list': list(fs), 'set': set(fs), 'frozenset': frozenset(fs),
+          'none': None, 'bare': fs[0] if fs else None, 'dup': fs + fs}[sp]
+
+
+def rank_of(v):
+  """Position of v among the values of its group (embeddable / not), in enumeration order."""
+  vals = all_values()
+  grp = [x for x in vals if embeddable(x) == embeddable(v)]
+  return [tup(x) for x in grp].index(tup(v))
+
+
+def check_embed(v, mod, fails, spies=None, classes=None, rank=None, full=True):
+  """Converts every entity kind through every entry point that can request v; the options expressions in the
+  generated source and the options objects the running code hands to its function scopes must equal v (the
+  entity's own scope) / v.call_options() (nested defs, callees). Returns the number of cases."""
+  own = spies is None
+  spies = spies or _Spies()
+  e = _Embed(v, mod, spies, fails, classes if classes is not None else [], rank_of(v) if rank is None else rank, full)
+  with harness.swapped_ag(**spies.overrides):
+    e.run()
+  if own:
+    harness.forget_generated(mod)
+  return e.n
 
 
 def _std_checks(fails):
@@ -289,6 +665,7 @@ def shard(ctx, acc):
   objs = [mk(v) for v in vals]
   keys = caching_keys(objs)
   mod = harness.load_module(_E2E_SRC)
+  spies = _Spies()
   try:
     if ctx.shard == 0:
       fl = []
@@ -296,8 +673,14 @@ def shard(ctx, acc):
       for b, d in fl:
         acc.fail(b, {'kind': 'std'}, d)
       acc.case(key='std', nontrivial=False, classes=['std_checks'])
+    # the values a function scope accepts (the expensive ones: they are also run through every entry point) are
+    # dealt round-robin on their own, so that every shard gets its share of both groups
+    ranks, cnt = {}, {True: 0, False: 0}
     for idx, v in enumerate(vals):
-      if idx % ctx.nshards != ctx.shard:
+      ranks[idx] = cnt[embeddable(v)]
+      cnt[embeddable(v)] += 1
+    for idx, v in enumerate(vals):
+      if ranks[idx] % ctx.nshards != ctx.shard:
         continue
       fl = []
       n = check_single(v, fl)
@@ -307,19 +690,21 @@ def shard(ctx, acc):
       n += len(vals)
       n += check_cache_keys(v, a, vals, objs, keys, keys[idx], fl)
       cls = ['nfeatures=%d' % len(v[3])]
-      if embeddable(v):
-        check_embed(v, mod, fl)
-        n += 1
-        cls.append('embedded_end_to_end')
+      ecls = []
+      n += check_embed(v, mod, fl, spies, ecls, ranks[idx], full=(ctx.tier == 'thorough'))
+      cls.append('embedded_end_to_end' if embeddable(v) else 'embedded_static_only')
       acc.case(key=repr(tup(v)[:3]) + repr(sorted(f.name for f in v[3])), nontrivial=True, classes=cls,
                sample=enc(v) if idx % 97 == 0 else None, size=len(v[3]), n=n)
       acc.count('values')
+      for c in ecls:
+        acc.count(c)
       seen = set()
       for b, d in fl:
         if b not in seen:
           seen.add(b)
           acc.fail(b, enc(v), d)
   finally:
+    harness.forget_generated(mod)
     harness.unload_module(mod)
 
 
@@ -336,12 +721,11 @@ def replay(case):
   vals = all_values()
   objs = [mk(x) for x in vals]
   check_cache_keys(v, a, vals, objs, caching_keys(objs), caching_keys([a])[0], fails)
-  if embeddable(v):
-    mod = harness.load_module(_E2E_SRC)
-    try:
-      check_embed(v, mod, fails)
-    finally:
-      harness.unload_module(mod)
+  mod = harness.load_module(_E2E_SRC)
+  try:
+    check_embed(v, mod, fails)
+  finally:
+    harness.unload_module(mod)
   out, seen = [], set()
   for b, d in fails:
     if b not in seen:
@@ -351,6 +735,10 @@ def replay(case):
 
 LEVEL_TEXT = ('Complete enumeration: all 1024 option values, all their spellings and all 1024^2 ordered pairs are checked '
               'on every run, so within the stated space the property is decided, not sampled; embedding is additionally '
-              'observed end to end in running converted code for the 128 values a function scope accepts.')
+              'observed end to end over 12 entity kinds (def, lambdas, closure, methods, partials, callable object) and 7 entry '
+              'points (transform, to_code, to_graph, convert, converted_call by options / by caller scope, malt.internal.convert '
+              'under all context statuses): statically for all 1024 values, in running converted code for the 128 values a '
+              'function scope accepts.')
 LEVEL_NOTE = ('Trusted: Python eval of the unparsed expression with the same ag__ module generated code receives; the Feature '
-              'enumeration read at run time. Outside: option objects built by third-party subclasses.')
+              'enumeration read at run time. Outside: option objects built by third-party subclasses; entity kinds beyond the '
+              'twelve listed (generators, coroutines, decorated functions are C09/C15 territory).')
